@@ -119,6 +119,8 @@ def specs():
     # ---- Epoch
     EP = ("E", 2448908.5)
     add("Epoch.set", [num(1987, [-4712, 2024]), num(6, [1, 12]), num(19.5, [1, 30.999])], recv=EP, mutator=True)
+    add("Epoch.set#leap_february", [num(2024, [1500, -4]), ("any", 2, ["Feb", "february"]), num(29.5, [1, 29])], recv=EP,
+        mutator=True)
     add("Epoch.check_input_date", [num(1992, [-500, 2050]), num(10, [1, 2]), num(13.25, [1, 28])])
     add("Epoch.is_julian", [num(1582, [1581, 1583]), num(10, [9, 11]), num(4, [5, 15])])
     add("Epoch.julian", [], recv=EP)
@@ -204,6 +206,18 @@ def specs():
          ("list", ("AL", [6.0, 5.9, 5.8, 5.7, 5.6]), []),
          ("list", ("AL", [156.0 - 0.25 * n for n in (-2, -1, 0, 1, 2)]), []),
          ("list", ("AL", [4.2, 4.1, 4.0, 3.9, 3.8]), [])])
+    RA6 = [156.0 + 0.3 * (n + 0.4) for n in (-2, -1, 0, 1, 2, 3)]
+    for kind in ("AL", "AT"):
+        add("Coordinates.planetary_conjunction#even_%s" % kind,
+            [("list", (kind, RA6), []), ("list", (kind, [6.0, 5.9, 5.8, 5.7, 5.6, 5.5]), []),
+             ("list", (kind, [156.0 - 0.25 * n for n in (-2, -1, 0, 1, 2, 3)]), []),
+             ("list", (kind, [4.2, 4.1, 4.0, 3.9, 3.8, 3.7]), [])])
+        add("Coordinates.planet_star_conjunction#even_%s" % kind,
+            [("list", (kind, RA6), []), ("list", (kind, [6.0, 5.9, 5.8, 5.7, 5.6, 5.5]), []), ang(156.0, [156.1]),
+             ang(4.0, [-4.0])])
+        add("Coordinates.planet_stars_in_line#even_%s" % kind,
+            [("list", (kind, RA6), []), ("list", (kind, [5.4, 5.3, 5.2, 5.1, 5.0, 4.9]), []), ang(149.0, [148.5]),
+             ang(3.0, [3.1]), ang(165.0, [166.0]), ang(8.0, [7.9])])
     add("Coordinates.planet_star_conjunction",
         [("list", ("AL", [156.0 + 0.3 * (n + 0.4) for n in (-2, -1, 0, 1, 2)]), []),
          ("list", ("AL", [6.0, 5.9, 5.8, 5.7, 5.6]), []), ang(156.0, [156.1]), ang(4.0, [-4.0])])
